@@ -134,6 +134,19 @@ def flip(b, pos, bit):
     return b[:pos] + bytes([b[pos] ^ (1 << (bit % 8))]) + b[pos + 1:]
 
 
+def _with_dummy(script, witness, sel):
+    """(script, witness) with the leading empty element of a multisig unlocking stack replaced by a small non-empty one, or
+    None when the unlocking data does not start with an empty element followed by a signature"""
+    item = [b"\x01", b"\x00", b"\x81", b"\x02\x03"][sel % 4]
+    witness = tuple(witness)
+    if len(witness) >= 3 and witness[0] == b"" and len(witness[1]) > 60:
+        return script, (item,) + witness[1:]
+    if not witness and len(script) > 70 and script[0] == 0x00 and 0x40 <= script[1] <= 0x4b:
+        push = bytes([0x51]) if item == b"\x01" and sel % 8 < 4 else bytes([len(item)]) + item
+        return push + script[1:], witness
+    return None
+
+
 def mutate(model, mut):
     """pure: returns (new model, label) ; label 'nop' when the mutation does not apply to this transaction"""
     m = copy.deepcopy(model)
@@ -200,6 +213,14 @@ def mutate(model, mut):
             return m, "nop"
         for f in ("script", "witness", "src"):
             ins[a][f], ins[b][f] = ins[b][f], ins[a][f]
+    elif kind == "dummy":
+        # unlocking data no signature commits to: the extra element OP_CHECKMULTISIG pops (empty as signed) becomes
+        # non-empty.  Without the NULLDUMMY policy flag - the default validation does not set it - the input stays valid.
+        j = mut[1] % n_in
+        new = _with_dummy(ins[j]["script"], ins[j]["witness"], mut[2])
+        if new is None:
+            return m, "nop"
+        ins[j]["script"], ins[j]["witness"] = new
     elif kind == "spent_amount":
         j = mut[1] % n_in
         if not known_unspent(m, j):
@@ -356,6 +377,7 @@ def full_catalogue(model, seed):
                  ["spent_script", j, nxt(200), nxt(8)], ["remove_in", j], ["unspents", "none", j], ["unspents", "short", j]]
         muts += [["swap_in", j, b] for b in range(j + 1, n_in)]
         muts += [["swap_unlock", j, b] for b in range(j + 1, n_in)]
+        muts += [["dummy", j, nxt(8)]]
     for o in range(n_out):
         muts += [["out_value", o, nxt(51)], ["out_script", o, nxt(40), nxt(8)], ["remove_out", o]]
         muts += [["swap_out", o, b] for b in range(o + 1, n_out)]
@@ -405,6 +427,7 @@ def s_mutation():
         st.tuples(st.just("remove_in"), j),
         st.tuples(st.just("swap_in"), j, j),
         st.tuples(st.just("swap_unlock"), j, j),
+        st.tuples(st.just("dummy"), j, st.integers(0, 7)),
         st.tuples(st.just("spent_amount"), j, st.integers(0, 50)),
         st.tuples(st.just("spent_script"), j, st.integers(0, 200), st.integers(0, 7)),
         st.tuples(st.just("unspents"), st.sampled_from(["empty", "short", "none"]), j),
@@ -505,6 +528,17 @@ def apply_live(tx, T, model_before, mut):
             ins[a].witness, ins[b].witness = ins[b].witness, ins[a].witness
         swap()
         return swap
+    if kind == "dummy":
+        ti = ins[mut[1] % n_in]
+        old = (ti.script, list(ti.witness))
+        new = _with_dummy(ti.script, ti.witness, mut[2])
+        if new is None:
+            raise HarnessError("dummy mutation applied to an input without a multisig unlocking stack")
+        ti.script, ti.witness = new[0], list(new[1])
+
+        def undo():
+            ti.script, ti.witness = old[0], list(old[1])
+        return undo
     if kind == "spent_amount":
         u = tx.unspents[mut[1] % n_in]
         old = u.coin_value
